@@ -13,9 +13,13 @@
 (* public constant, so the IR of `a` depends on BOTH texts; the IR of `b`  *)
 (* on its own), and the content of outd/<m>.pn.ll as an abstract value:    *)
 (* none | foreign | the record of what the IR was computed from.         *)
-(* Actions: Emit(listed, wasm), Edit(m) (the other file is NOT touched),   *)
+(* Actions: Emit(sub, listed, wasm) with sub = emit | build (`penne build  *)
+(* --out-dir outd` writes the same files and feeds the backend with the    *)
+(* IR of the whole compilation), Edit(m) (the other file is NOT touched),  *)
 (* Plant(m) (a foreign file at the path of the IR), Remove(m).             *)
-(* R = the Emit action itself: fs'[m] = IR(m, ver, wasm) for listed m.     *)
+(* R = the Emit action itself: fs'[m] = IR(m, ver, wasm) for listed m, and *)
+(* fed' = what the backend of a build is given: the IR of the listed       *)
+(* modules as they are now (the exit status is 0 in every case).           *)
 (* TLC checks that this rule makes an emission a function of the sources   *)
 (* and the target alone (FreshEqualsReused) and prints every behaviour     *)
 (* that ends with an emission as one CASE; each is replayed against the    *)
@@ -24,12 +28,13 @@
 (***************************************************************************)
 EXTENDS Naturals, Sequences, FiniteSets, TLC, Json
 
-CONSTANT MaxSteps
+CONSTANTS MaxSteps,
+          Subs        \* the subcommands of the model: a subset of {"emit", "build"}
 Mods == {"a", "b"}
 Lists == { {"a", "b"}, {"b"} }          \* `a` alone cannot be compiled: its import would be missing
 
-VARIABLES ver, fs, hist, last
-vars == <<ver, fs, hist, last>>
+VARIABLES ver, fs, hist, last, fed
+vars == <<ver, fs, hist, last, fed>>
 
 None == [kind |-> "none"]
 Foreign == [kind |-> "foreign"]
@@ -41,31 +46,36 @@ Init == /\ ver = [m \in Mods |-> 1]
         /\ fs = [m \in Mods |-> None]
         /\ hist = <<>>
         /\ last = [listed |-> {}]
+        /\ fed = None
 
-Emit(listed, w) ==
+\* what a backend is fed with: the IR of the compilation of the listed modules
+Linked(listed, v, w) == [kind |-> "linked", a |-> (IF "a" \in listed THEN v["a"] ELSE 0), b |-> v["b"], wasm |-> w]
+Emit(sub, listed, w) ==
     /\ fs' = [m \in Mods |-> IF m \in listed THEN IR(m, ver, w) ELSE fs[m]]
-    /\ hist' = Append(hist, [op |-> "emit", listed |-> listed, wasm |-> w, fs |-> Show(fs')])
-    /\ last' = [listed |-> listed, ver |-> ver, wasm |-> w]
+    /\ fed' = IF sub = "build" THEN Linked(listed, ver, w) ELSE fed
+    /\ hist' = Append(hist, [op |-> sub, listed |-> listed, wasm |-> w, fs |-> Show(fs')]
+                             @@ (IF sub = "build" THEN [fed |-> fed'] ELSE <<>>))
+    /\ last' = [listed |-> listed, ver |-> ver, wasm |-> w, sub |-> sub]
     /\ UNCHANGED ver
 Edit(m) ==
     /\ ver' = [ver EXCEPT ![m] = 3 - @]
     /\ hist' = Append(hist, [op |-> "edit", m |-> m, v |-> ver'[m]])
-    /\ UNCHANGED <<fs, last>>
+    /\ UNCHANGED <<fs, last, fed>>
 Plant(m) ==
     /\ fs[m] # Foreign
     /\ fs' = [fs EXCEPT ![m] = Foreign]
     /\ hist' = Append(hist, [op |-> "plant", m |-> m])
     /\ last' = [last EXCEPT !.listed = @ \ {m}]
-    /\ UNCHANGED ver
+    /\ UNCHANGED <<ver, fed>>
 Remove(m) ==
     /\ fs[m] # None
     /\ fs' = [fs EXCEPT ![m] = None]
     /\ hist' = Append(hist, [op |-> "remove", m |-> m])
     /\ last' = [last EXCEPT !.listed = @ \ {m}]
-    /\ UNCHANGED ver
+    /\ UNCHANGED <<ver, fed>>
 
 Next == /\ Len(hist) < MaxSteps
-        /\ \/ \E l \in Lists, w \in BOOLEAN : Emit(l, w)
+        /\ \/ \E sb \in Subs, l \in Lists, w \in BOOLEAN : Emit(sb, l, w)
            \/ \E m \in Mods : Edit(m) \/ Plant(m) \/ Remove(m)
 Spec == Init /\ [][Next]_vars
 
@@ -75,6 +85,9 @@ FreshEqualsReused == \A m \in last.listed : fs[m] = IR(m, last.ver, last.wasm)
 Dependencies == /\ \A v1, v2 \in [Mods -> 1..2], w \in BOOLEAN : (IR("a", v1, w) = IR("a", v2, w)) <=> (v1 = v2)
                 /\ \A v1, v2 \in [Mods -> 1..2], w \in BOOLEAN : (IR("b", v1, w) = IR("b", v2, w)) <=> (v1["b"] = v2["b"])
 
-EmitCase == (Len(hist) > 0 /\ hist[Len(hist)].op = "emit") =>
+\* the backend of the last build was fed with the IR of the sources of THAT build, whatever the directory held
+FedIsCurrent == ("sub" \in DOMAIN last /\ last.sub = "build" /\ hist[Len(hist)].op = "build") => fed = Linked(hist[Len(hist)].listed, last.ver, last.wasm)
+
+EmitCase == (Len(hist) > 0 /\ hist[Len(hist)].op \in Subs) =>
                 PrintT(<<"CASE", ToJson([steps |-> hist])>>)
 =============================================================================
